@@ -409,12 +409,35 @@ pub fn c06(tier: &str) -> ! {
     if t {
         run_sched(&mut rep, "batches/p3d5", &c06_programs(), (3, 5), 16, true, 2, Duration::from_secs(2400), own);
     } else {
-        run_sched(&mut rep, "batches/p2d4", &c06_programs(), (2, 4), 8, true, 1, Duration::from_secs(45), own);
+        run_sched(&mut rep, "batches/p2d4", &c06_programs(), (2, 4), 8, true, 1, Duration::from_secs(38), own);
+    }
+    // across a crash: what a reader sees after the recovery - and after later writes have moved
+    // the sequence number on - is a state the history went through, never part of a batch
+    {
+        use crate::crashx::{CrashMode, CrashSpec};
+        use crate::props_crash::{covering_histories, generated_histories, run_crash, shrink_history};
+        let spec = CrashSpec {
+            mode: CrashMode::Prefixes,
+            nested: false,
+            check_directory: false,
+            prefix: "C06",
+            cross_cfg: false,
+            atomicity_only: true,
+        };
+        let own6 = |c: &str| c.starts_with("C06.");
+        let hs: Vec<_> = covering_histories(&["M2", "M2n", "T300"]).into_iter().chain(shrink_history()).collect();
+        if t {
+            run_crash(&mut rep, "batch-atomicity-across-recovery/covering", hs, spec.clone(), crate::report::scaled(Duration::from_secs(600)), own6);
+            run_crash(&mut rep, "batch-atomicity-across-recovery/generated<=4", generated_histories(&["M2", "M2n"], 4), spec, crate::report::scaled(Duration::from_secs(900)), own6);
+        } else {
+            run_crash(&mut rep, "batch-atomicity-across-recovery/covering", hs, spec.clone(), Duration::from_secs(8), own6);
+            run_crash(&mut rep, "batch-atomicity-across-recovery/generated<=2", generated_histories(&["M2", "M2n"], 2), spec, Duration::from_secs(6), own6);
+        }
     }
     for a in SCHED_ASSUMPTIONS {
         rep.assume(a);
     }
-    rep.cov("oracle", json!("every snapshot read / iterator scan returns all or none of each batch's effects (judged directly when no other writer touches the batch's keys, and through linearizability with batches as atomic multi-key writes otherwise)"));
+    rep.cov("oracle", json!("every snapshot read / iterator scan returns all or none of each batch's effects (judged directly when no other writer touches the batch's keys, and through linearizability with batches as atomic multi-key writes otherwise); crash part: at every crash image (prefix of the filesystem-operation log) of the covering and generated histories the recovered contents of the history's keys equal the model after some prefix of the history's operations - never part of a batch - right after the recovery, after each of three later writes to other keys, and after a clean reopen; a snapshot taken right after the recovery keeps its state"));
     rep.finish()
 }
 
